@@ -38,3 +38,15 @@ Theorem C02_start_declared : forall c ops, hist_ok ops -> forall r a, In (TStore
   (exists f, declared (ec_calls c) f (r_status r)) \/ (exists t, declared (ec_calls c) (r_status r) t).
 Proof. exact p_start_declared. Qed.
 Print Assumptions C02_start_declared.
+
+(* "a function that returns an undeclared destination changes nothing ... and the caller or the retry loop sees an error", for
+   EVERY state (any world, fault plan, lease): with an undeclared destination the updater never writes, and it returns an
+   error whenever the run still has the status the function was invoked at (the handler's error is what Callback returns
+   and what keeps the consumer from acknowledging: C07_fail_no_ack) *)
+From WF Require Import proofs.HandlerFacts.
+Theorem C02_undeclared_is_an_error : forall c cur next run s,
+  validate_transition (ec_graph c) cur next = false ->
+  o_w (snd (updater c cur next run s)) = o_w s /\
+  (forall l s1, p_lookup (r_run run) s = (Ok (Some l), s1) -> r_status l = cur -> fst (updater c cur next run s) = Err EGen).
+Proof. exact updater_undeclared. Qed.
+Print Assumptions C02_undeclared_is_an_error.
